@@ -85,9 +85,9 @@ type typeRefTarget struct {
 
 type genCtx struct {
 	pathVarRefs bool // REST path variables may be typed by type references (IntentOpts.PathVarRefs)
-	apps    []*App
-	types   map[string][]string // app key -> raw type names
-	appKeys []string
+	apps        []*App
+	types       map[string][]string // app key -> raw type names
+	appKeys     []string
 }
 
 func appKey(parts []string) string { return strings.Join(parts, " :: ") }
@@ -309,12 +309,12 @@ func (g *genCtx) genParams(t *rapid.T, cur *App, max int) []Param {
 // IntentOpts switches optional generator features on (they draw *after* everything else, so the
 // default generator's draw sequence is unchanged).
 type IntentOpts struct {
-	Mixins     bool // single-level mixins of ~abstract apps
-	Subs       bool // subscriptions 'Src -> Ev' to events of applications declared earlier
-	Collectors bool // '.. * <- *' blocks merging attributes into endpoints and call statements
-	PathVarRefs bool // REST path variables typed by a bare local type name or App.Type
+	Mixins         bool // single-level mixins of ~abstract apps
+	Subs           bool // subscriptions 'Src -> Ev' to events of applications declared earlier
+	Collectors     bool // '.. * <- *' blocks merging attributes into endpoints and call statements
+	PathVarRefs    bool // REST path variables typed by a bare local type name or App.Type
 	MultiLineAnnos bool // string annotations written in the multi-line form '@k =:' + '| text' lines
-	PlusText bool // a literal '+' in return payloads, call endpoints and action text
+	PlusText       bool // a literal '+' in return payloads, call endpoints and action text
 	// SubsOrderFree: at most one subscriber per (publisher, event) in the whole specification, and only to
 	// events the publisher does not give statements of its own - then no statement order depends on the
 	// order in which blocks are walked (needed by the partition relation of C04)
